@@ -1,13 +1,21 @@
 """Which units / harnesses decide which property.  Kept as data so `check` stays generic."""
 
 # unit -> build modes in which it is verified (default: dbg only; the function text of most units is
-# identical in both expansions, the ones listed with 'rel' contain cfg(debug_assertions)-dependent code)
+# identical in both expansions; units listed with 'rel' contain cfg(debug_assertions)-dependent code
+# or entries with `mode=rel`)
 UNIT_MODES = {
+    'sdiv': ['dbg', 'rel'],
 }
 
+# property -> verus units owned by the property (dependencies are added automatically) and the
+# claimed level.  Kani harnesses are selected by their `property` field in kani/harnesses.json.
 PROPS = {
     'C01': dict(units=['core_add'], title='add/sub/neg/abs exact in every overflow mode'),
+    'C02': dict(units=['mul'], title='multiplication exact'),
+    'C03': dict(units=['sdiv'], title='division and remainder'),
+    'C07': dict(units=['cmp', 'cmp2'], title='comparison, equality, hashing'),
     'C14': dict(units=[], level='model_checking', title='float casts'),
+    'C16': dict(units=['consts'], title='digit-type independence and constants'),
 }
 
 QUICK_DIGITS = ['u64', 'u8']
